@@ -57,11 +57,39 @@ def bracket_depth(text, ch="["):
 TYPE_CONTEXT = re.compile(r"(:|->|\btype\s+\w+|\bmap\s*\[|\.\.\.)\s*(\[\s*){10,}")
 
 
+FN_HEAD = re.compile(r"\bfn\b\s*(\w+\s*)?\(")
+
+
+def fn_literal_depth(text):
+    """deepest nesting of function bodies: a `{` counts when a function head `fn(` was opened since the previous brace"""
+    stack, best, last = [], 0, 0
+    for i, c in enumerate(text):
+        if c == "{":
+            stack.append(bool(FN_HEAD.search(text, last, i)))
+            best = max(best, sum(stack))
+            last = i + 1
+        elif c == "}":
+            if stack:
+                stack.pop()
+            last = i + 1
+    return best
+
+
 def timeout_shape(text):
-    """the two known exponential families of the grammar (DESIGN F10) are recognised by their shape"""
+    """the exponential families of the grammar (DESIGN F10) are recognised by their shape"""
     if bracket_depth(text) >= 12:
         return "nested-list-type" if TYPE_CONTEXT.search(text) else "nested-list-value"
+    if fn_literal_depth(text) >= 8:
+        return "nested-function-literal"
     return "other"
+
+
+CHAIN_OP = re.compile(r"(?<=[\w)\]\"])\s*(\+|-|\*|/|%|&&|\|\||==|!=|<=|>=|<<|>>|<|>|\||&|\^|\bxor\b|\bor\b)\s*(?=[\w(\[\"!-])")
+
+
+def operator_chain_length(text):
+    """the largest number of binary operators on one line (a flat chain `a + b + c + ...` is one left-deep expression)"""
+    return max([len(CHAIN_OP.findall(l)) for l in text.split("\n")] or [0])
 
 
 def raw_key(rc, err, text=""):
@@ -72,7 +100,8 @@ def raw_key(rc, err, text=""):
         return ("timeout", timeout_shape(text))
     m = PANIC_AT.search(err)
     if "has overflowed its stack" in err:
-        return ("stack-overflow", "deep-nesting" if nesting_depth(text) >= 100 else "other")
+        return ("stack-overflow", "deep-nesting" if nesting_depth(text) >= 100 else
+                ("long-operator-chain" if operator_chain_length(text) >= 150 else "other"))
     if m:
         return ("panic", "%s:%s" % (m.group(1), m.group(2)))
     return ("exit", str(rc))
@@ -128,9 +157,10 @@ def final_class(binary, base, key, files, entry, err):
     if key[0] == "panic":
         return panic_class(binary, base, files, entry, err)
     if key[0] == "stack-overflow":
-        return "stack-overflow-deep-nesting" if key[1] == "deep-nesting" else "stack-overflow"
+        return {"deep-nesting": "stack-overflow-deep-nesting", "long-operator-chain": "stack-overflow-long-operator-chain"}.get(key[1], "stack-overflow")
     if key[0] == "timeout":
-        return {"nested-list-type": "exponential-nested-list-type", "nested-list-value": "exponential-nested-list-value"}.get(key[1], "timeout")
+        return {"nested-list-type": "exponential-nested-list-type", "nested-list-value": "exponential-nested-list-value",
+                "nested-function-literal": "exponential-nested-function-literal"}.get(key[1], "timeout")
     return "unexpected-exit:%s" % key[1]
 
 
@@ -198,6 +228,11 @@ def breadth_suspects():
     """WIDE rather than deep inputs: long flat chains / sequences of one construct.  Their size is linear, so the
     compiler must answer within the time limit (an exponential pass over a left-nested chain shows here)"""
     out = []
+    # flat chains of several hundred operands, still below 4 kB: the bytecode is a linear sequence, nothing is nested
+    for n, op, var, pre in ((900, "+", "x", "x = 1\n"), (1300, "+", "x", "x = 1\n"), (900, "*", "x", "x = 1\n"), (800, "&&", "b", "b = true\n"),
+                            (700, "or", "o", "o: int? = 1\n"), (650, "+", "\"s\"", ""), (780, "==", "b", "b = true\n")):
+        sep = (" %s " % op) if n < 1000 else op
+        out.append(("breadth:long-chain %s x%d" % (op, n), pre + "y = " + sep.join([var] * n) + "\nprint y\n"))
     for n in (40, 200):
         for op in ("+", "-", "*", "|", "&&", "||", "=="):
             lit = {"&&": "true", "||": "false", "==": "true", "*": "1"}.get(op)
@@ -219,11 +254,35 @@ def breadth_suspects():
     return out
 
 
+def backtracking_suspects():
+    """NEARLY VALID deep code: one operand is missing in the innermost of k nested function literals, the ordinary shape of
+    callbacks and factories while they are being typed.  The input is a few hundred bytes; the diagnostic must come as promptly
+    as the valid twin compiles (a parser that tries every enclosing level twice needs 2^k steps)."""
+    out = []
+    fams = {
+        "callback": ("run = fn(cb: fn()) { cb() }\n", "run(fn() {\n", "print 1 %s\n", "})\n"),
+        "method-callback": ("l = [1]\n", "l.map(fn(e: int) {\n", "print 1 %s\n", "})\n"),
+        "second-argument": ("run = fn(a: int, cb: fn()) { cb() }\n", "run(1, fn() {\n", "print 1 %s\n", "})\n"),
+        "list-of-functions": ("", "x = [fn() {\n", "print 1 %s\n", "}]\n"),
+        "map-of-functions": ("", "x = map[str, fn()] { \"k\": fn() {\n", "print 1 %s\n", "} }\n"),
+        "callback-in-if": ("run = fn(cb: fn()) { cb() }\n", "run(fn() {\n if true {\n", "print 1 %s\n", "}})\n"),
+        "returned-and-called": ("", "x = fn() -> int {\n return (fn() -> int {\n", "return 1 %s\n", "})()\n}\n"),
+        "assigned": ("", "x = fn() {\n", "print 1 %s\n", "}\n"),
+        "method-body": ("", "class K {\n fn m(self) {\n  run(fn() {\n", "print 1 %s\n", "})\n }\n}\n"),
+    }
+    for name, (pre, opener, inner, closer) in sorted(fams.items()):
+        for k in (12, 20, 32):
+            out.append(("backtracking:%s x%d missing operand" % (name, k), pre + opener * k + (inner % "+") + closer * k))
+            out.append(("backtracking:%s x%d valid twin" % (name, k), pre + opener * k + (inner % "+ 1") + closer * k))
+        out.append(("backtracking:%s x20 unclosed" % name, pre + opener * 20 + (inner % "+ 1")))
+    return out
+
+
 def build_inputs(ctx, gr, n_gen, n_mut, n_mutgen, n_grid=0):
     """-> list of cases {name, stream, files, entry}"""
     rng = ctx.rng
     cases = []
-    for name, text in suspects() + breadth_suspects() + placement_suspects():
+    for name, text in suspects() + breadth_suspects() + backtracking_suspects() + placement_suspects():
         cases.append({"name": name, "stream": "suspect", "files": {"main.ms": text}, "entry": "main.ms"})
     corpus = programs.corpus_from_tests() + programs.corpus_from_examples()
     for p in corpus:
